@@ -326,6 +326,11 @@ REGISTRY["C13"]["teq"].append({"engine": "conc", "quick": {"n": 24, "mode": "mem
 REGISTRY["C12"]["teq"].append(seq({"only": "limited", "autocheck": 1, "n": 6, "ops": 80, "seedoff": 212}, {"only": "limited", "autocheck": 1, "seedoff": 212}))
 REGISTRY["C13"]["teq"].append(seq({"only": "limited", "n": 10, "ops": 80, "seedoff": 113}, {"only": "limited", "seedoff": 113}))
 REGISTRY["C11"]["teq"].append(_f1(11))
+REGISTRY["C10"]["teq"].append({"engine": "crash", "quick": {"n": 1, "points": 8, "ttl": 1, "seedoff": 310}, "thorough": {"tier": "thorough", "ttl": 1, "seedoff": 310},
+                                "oracle": True, "mismatch_is_failure": True, "timeout": 3400,
+                                "nontrivial": lambda case, res: "plan=" in case and res.startswith("ok") and "keys=-" not in res,
+                                "distinct_key": lambda case, res: res,
+                                "what": "counters that end up in the metadata block: crash images of TTL-on workloads (generations expired on arrival next to live ones) reopened by the real code; record count, memory, disk usage (the value flush and Drop copy into Metadata.total_size) and free-space statistics after recovery must equal Model.Recovery.open_image's, and so must the file bytes recovery leaves behind"})
 REGISTRY["C05"]["teq"].append({"engine": "crash", "quick": {"n": 1, "points": 12, "seedoff": 5}, "thorough": {"tier": "thorough", "seedoff": 5},
                                 "oracle": True, "mismatch_is_failure": False, "timeout": 3400,
                                 "nontrivial": lambda case, res: "plan=" in case and not case.endswith("none") and res.startswith("ok") and "keys=-" not in res,
